@@ -11,6 +11,7 @@ import (
 	"os"
 	"path/filepath"
 	"sort"
+	"time"
 )
 
 func init() {
@@ -131,7 +132,12 @@ func runPrestate(o *opts) {
 			digests[ob.Digest] = string(ob.Data)
 		}
 		kinds := map[string]int{}
+		prestateScratch = filepath.Join(p.Root, "zz_scratch")
 		pre := mutateForPrestate(rr, cur, c.art, digests, kinds, 0, c.kind == "norec")
+		if kinds["link-to-live-dir"] > 0 {
+			must(os.MkdirAll(prestateScratch, 0o755))
+			must(os.WriteFile(filepath.Join(prestateScratch, "bystander"), []byte("not dud's"), 0o644))
+		}
 		for k, v := range kinds {
 			for j := 0; j < v; j++ {
 				s.count("pre:" + k)
@@ -191,6 +197,9 @@ func splitPath(p string) []string {
 	return out
 }
 
+// prestateScratch is the existing directory that "link-to-live-dir" pre-states point to.
+var prestateScratch string
+
 // mutateForPrestate builds the pre-existing workspace entry for a committed entry.
 // cur = the entry as the commit left it (link or file), orig = the original content.
 func mutateForPrestate(r *rng, cur, orig *Node, digests map[string]string, kinds map[string]int, depth int, norec bool) *Node {
@@ -205,6 +214,11 @@ func mutateForPrestate(r *rng, cur, orig *Node, digests map[string]string, kinds
 		case 2:
 			kinds["link-for-dir"]++
 			return &Node{Kind: "lo", Data: []byte("/nonexistent/dir")}
+		case 3:
+			// a link that resolves to an existing directory: stat-based calls follow it
+			kinds["link-for-dir"]++
+			kinds["link-to-live-dir"]++
+			return &Node{Kind: "lo", Data: []byte(prestateScratch)}
 		}
 		n := &Node{Kind: "d"}
 		for _, e := range orig.Ents {
@@ -340,16 +354,25 @@ func runCorrupt(o *opts) {
 		must(os.Chmod(op, 0o644))
 		must(os.WriteFile(op, data, 0o644))
 		must(os.Chmod(op, 0o444))
-		rmrf(filepath.Join(p.Root, c.artPath))
-		t, _ := p.do(Cmd{Kind: "checkout", Copy: true}, nil, want(5, 13), nil, nil)
+		// the workspace entry is absent, or (link commits) still the links the commit left behind
+		ws := "absent"
+		if !c.copyCm && rr.chance(1, 2) {
+			ws = "links-as-committed"
+		} else {
+			rmrf(filepath.Join(p.Root, c.artPath))
+		}
+		s.count("workspace:" + ws)
+		t, _ := p.do(Cmd{Kind: "checkout", Copy: true}, nil, want(5, 8, 13), nil, nil)
 		t.Info["step"] = "checkout --copy with a corrupted file object"
+		t.Info["workspace"] = ws
 		t.Info["damage"] = how
 		t.Info["victim_len"] = len(victim.Data)
 		distinct[victim.Digest+how] = true
 		ts := []*Transition{t}
 		// a retry must not "succeed" on the bytes the failed attempt left behind
-		t2, _ := p.do(Cmd{Kind: "checkout", Copy: true}, nil, want(5, 13), nil, nil)
+		t2, _ := p.do(Cmd{Kind: "checkout", Copy: true}, nil, want(5, 8, 13), nil, nil)
 		t2.Info["step"] = "checkout --copy again after the failed attempt"
+		t2.Info["workspace"] = ws
 		t2.Info["damage"] = how
 		ts = append(ts, t2)
 		tag(ts, "corrupt", i, map[string]interface{}{"kind": c.kind})
@@ -358,7 +381,7 @@ func runCorrupt(o *opts) {
 	}
 	s.Cases = len(all)
 	s.Nontrivial = len(distinct)
-	s.Rule = "committed artifact x one reachable file object damaged (flip first/middle/last byte, truncate by 1 / to 0, append 1) then `dud checkout --copy` of the removed artifact; every case is non-trivial; distinct by (object, damage)"
+	s.Rule = "committed artifact x one reachable file object damaged (flip first/middle/last byte, truncate by 1 / to 0, append 1) then `dud checkout --copy` (twice) of the removed artifact or over the links the commit left; every case is non-trivial; distinct by (object, damage)"
 	if len(all) > 0 {
 		s.Samples = append(s.Samples, all[0].Info)
 	}
@@ -400,10 +423,15 @@ func applyEdit(r *rng, p *Project, c *committed, abs string) string {
 		fp := filepath.Join(abs, e.rel)
 		os.Remove(fp) // never write through a link into the cache
 		must(os.WriteFile(fp, b, 0o644))
+		if r.chance(1, 3) {
+			// timestamps as cp -p / tar / rsync -t leave them: older than anything dud wrote
+			old := time.Date(2001, 2, 3, 4, 5, 6, 0, time.UTC)
+			must(os.Chtimes(fp, old, old))
+		}
 	}
-	kind := []string{"flip", "truncate", "append", "add-file", "add-dir", "delete", "rename", "retarget", "dangle", "file-to-dir", "dir-to-file", "link-to-copy", "none", "edit-below-norec", "append-nul", "truncate-nul"}[r.intn(16)]
+	kind := []string{"flip", "truncate", "append", "add-file", "add-dir", "delete", "rename", "retarget", "dangle", "file-to-dir", "dir-to-file", "link-to-copy", "none", "edit-below-norec", "append-nul", "truncate-nul", "drop-object", "drop-object"}[r.intn(18)]
 	switch kind {
-	case "flip", "truncate", "append", "delete", "rename", "retarget", "dangle", "file-to-dir", "link-to-copy", "append-nul", "truncate-nul":
+	case "flip", "truncate", "append", "delete", "rename", "retarget", "dangle", "file-to-dir", "link-to-copy", "append-nul", "truncate-nul", "drop-object":
 		if len(files) == 0 {
 			return ""
 		}
@@ -431,6 +459,19 @@ func applyEdit(r *rng, p *Project, c *committed, abs string) string {
 				return ""
 			}
 			rewrite(e, b[:len(b)-1])
+		case "drop-object":
+			// the workspace stays as it is; the committed bytes vanish from the cache
+			dropped := false
+			for _, ob := range c.w.Cache {
+				if string(ob.Data) == string(b) {
+					if os.Remove(cachePathOf(p.CacheDir, ob.Digest)) == nil {
+						dropped = true
+					}
+				}
+			}
+			if !dropped {
+				return ""
+			}
 		case "delete":
 			must(os.Remove(fp))
 		case "rename":
@@ -585,6 +626,7 @@ func lastLines(s string, n int) string {
 // ---------------- C16 ----------------
 
 func runHist(o *opts) {
+	fileModes = true
 	r := newRng(o.seed)
 	s := newSummary("hist", o.seed, o.tier)
 	n := 30
